@@ -7,6 +7,10 @@ CONSTANTS
   Time = {1}
   Locales = {"C"}
   EnvSizes = {0}
+  PwdValues = {"real", "link"}
+  CwdVia = {"real", "link"}
+  OcNames = {"rel"}
+  CwdSource = "getcwd"
   TieBreak = "none"
 INVARIANT OutputPure
 CHECK_DEADLOCK FALSE
